@@ -113,7 +113,7 @@ pub fn check(c: &Case, st: &mut Stats) -> CheckResult {
 /// Screened rare events: run the reference signer over a pool, keep the triples exhibiting a rare
 /// event, run the library on exactly those.
 fn screened(ctx: &Ctx, rep: &mut Report) {
-    let pool = u64::from(ctx.n(1500, 60_000));
+    let pool = u64::from(ctx.n(6000, 120_000));
     let seed = ctx.seed;
     for (si, lib) in libs().into_iter().enumerate() {
         let p = lib.p();
@@ -182,7 +182,7 @@ pub fn run(ctx: &Ctx, rep: &mut Report) {
     rep.assume("the verdict oracle is the library's own verifier on the library's own signature (the property itself); the reference signer is used only to classify cases (loop iterations, hint weight)");
     rep.assume(ASSUME_REF);
     let max_msg = if ctx.quick() { 4096 } else { 262_144 };
-    run_generated(ctx, rep, "generated", ctx.n(1800, 60_000), || strategy(max_msg), check);
+    run_generated(ctx, rep, "generated", ctx.n(8000, 120_000), || strategy(max_msg), check);
     screened(ctx, rep);
 }
 
